@@ -231,6 +231,7 @@ class MultipleOutputBuffer {
         }
       }
       annotated_.clear();
+      last_ = StringPiece();
     }
 
   private:
